@@ -1027,31 +1027,36 @@ impl Check for C09 {
             w.rep.expect_nonzero(name);
         }
         let mut bounds = serde_json::Map::new();
-        // pass-major order (all `full` passes, then `core`, then the big `deep` ones): if the wall cap
-        // strikes, every scenario has been covered to its base depth
-        'all: for pass_name in ["full", "core", "deep"] {
-            for (si, sc) in scs.iter().enumerate() {
-                if let Some(o) = &only {
-                    if *o != sc.name {
-                        continue;
-                    }
-                }
-                for p in sc.passes.iter().filter(|p| p.name == pass_name) {
-                    let allowed: Vec<usize> = (0..sc.ops.len()).filter(|&i| !p.without.contains(&sc.ops[i].name.as_str()) && (p.only.is_empty() || p.only.contains(&sc.ops[i].name.as_str()))).collect();
-                    let maxd = ctx.tier.pick(p.depth_quick, p.depth_thorough);
-                    // development aid: `--opt maxdepth=N` clamps every pass (never used by the registered runs)
-                    let maxd = ctx.opt("maxdepth").and_then(|s| s.parse::<usize>().ok()).map_or(maxd, |m| maxd.min(m));
-                    if maxd == 0 || ctx.opt("pass").map_or(false, |x| x != p.name) {
-                        continue;
-                    }
-                    bounds.insert(format!("{}/{}", sc.name, p.name), json!({"alphabet": allowed.len(), "depth": maxd}));
-                    let mut prefix = vec![];
-                    w.dfs(si, sc, &allowed, &mut prefix, false, maxd, true);
-                    if w.stop {
-                        break 'all;
-                    }
-                }
+        // smallest passes first: if the wall cap strikes (loaded machine), as many scenario/pass pairs as
+        // possible are complete; `completed-slices.<scenario>/<pass>` = number of workers that finished
+        // their slice of it (= workers when complete)
+        let mut plan: Vec<(u64, usize, usize, Vec<usize>, usize)> = vec![];
+        for (si, sc) in scs.iter().enumerate() {
+            if only.as_ref().map_or(false, |o| *o != sc.name) {
+                continue;
             }
+            for (pi, p) in sc.passes.iter().enumerate() {
+                let allowed: Vec<usize> = (0..sc.ops.len()).filter(|&i| !p.without.contains(&sc.ops[i].name.as_str()) && (p.only.is_empty() || p.only.contains(&sc.ops[i].name.as_str()))).collect();
+                let maxd = ctx.tier.pick(p.depth_quick, p.depth_thorough);
+                // development aid: `--opt maxdepth=N` clamps every pass (never used by the registered runs)
+                let maxd = ctx.opt("maxdepth").and_then(|s| s.parse::<usize>().ok()).map_or(maxd, |m| maxd.min(m));
+                if maxd == 0 || ctx.opt("pass").map_or(false, |x| x != p.name) {
+                    continue;
+                }
+                plan.push(((allowed.len() as u64).pow(maxd as u32), si, pi, allowed, maxd));
+            }
+        }
+        plan.sort_by_key(|x| (x.0, x.1, x.2));
+        for (_, si, pi, allowed, maxd) in plan {
+            let sc = &scs[si];
+            let p = &sc.passes[pi];
+            bounds.insert(format!("{}/{}", sc.name, p.name), json!({"alphabet": allowed.len(), "depth": maxd}));
+            let mut prefix = vec![];
+            w.dfs(si, sc, &allowed, &mut prefix, false, maxd, true);
+            if w.stop {
+                break;
+            }
+            w.rep.count(&format!("completed-slices.{}/{}", sc.name, p.name), 1);
         }
         let executed = w.run.executed;
         rep.bound("scenarios", Value::Object(bounds));
